@@ -97,8 +97,15 @@ def d8_timer_nonempty(chk, F):
         chk.fail("anchor-missing", "Timer construction", f"{f.file}:{f.line}", "anchor-missing: no Timer { name, quantity } construction in parser::step::timer")
         return
     ff, ai, ast_, d = aggs[0]
-    none_name = _variant_defs(f, d["name"], "None")
-    chk.floor("C06.D8-timer-nonempty", "`name = None` sites", len(none_name), 1, f"{f.file}:{f.line}")
+    # "the name is empty" is known from the true outcome of Text::is_text_empty on the name text (the model stores None then)
+    empt = [(b, t) for b, t in f.calls() if (callee_key(t) or "").endswith("text::Text::is_text_empty")]
+    starts_e, infeasible0 = [], set()
+    for b, t in empt:
+        te, fe = call_result_edges(f, b)
+        starts_e += [v for (u, v) in te]
+        infeasible0 |= set(fe)           # every later branch on the same bool (through copies and `!`) is decided
+    none_name = [(v, None) for v in starts_e] or _variant_defs(f, d["name"], "None")
+    chk.floor("C06.D8-timer-nonempty", "`name is empty` outcomes", len(none_name), 1, f"{f.file}:{f.line}")
     some_q = {b for b, _ in _variant_defs(f, d["quantity"], "Some")}
     K = set(some_q)
     # the local that holds `quantity`
@@ -114,12 +121,12 @@ def d8_timer_nonempty(chk, F):
                 if [x for x in f.live if v in f.succ[x]] == [u]:
                     K.add(v)
     # paths that start at `name = None` cannot take the not-none outcome of a later test of `name` (name is not reassigned)
-    infeasible = set()
+    infeasible = set(infeasible0)
     for b, t in f.calls():
         k = callee_key(t) or ""
         if k.endswith(("Option::<T>::is_none", "Option::<T>::is_some")):
             txt = full_text(arg_expr(f, t, 0))
-            if "φ[name]" in txt or txt.lstrip("&(*").startswith("name"):
+            if "φ[name]" in txt or txt.lstrip("&(*").startswith("name") or "then_some" in txt and "is_text_empty" in txt:
                 te, fe = call_result_edges(f, b)
                 infeasible |= set(fe if k.endswith("is_none") else te)
     starts = [b for b, _ in none_name]
